@@ -15,7 +15,7 @@ REQ = c14.REQ
 
 SITES = ["SNamespaces", "SScopeStack", "SAnalysis", "SParse", "SDbLoad", "STryImport", "SCompletion"]
 # sites the property quantifies over (database load, parse, scope analysis, import execution, completion lookup)
-QUANTIFIED = ["SScopeStack", "SAnalysis", "SParse", "SDbLoad", "STryImport", "SCompletion"]
+QUANTIFIED = ["SScopeStack", "SAnalysis", "SParse", "SDbLoad", "STryImport", "SCompletion", "SNeedsImport", "SModuleList"]
 EXC_CLASSES = ["ValueError", "OSError", "KeyError", "AssertionError", "ImportError", "RuntimeError", "TypeError",
                "AttributeError", "ZeroDivisionError", "CustomError", "MemoryError", "RecursionError", "NameError"]
 BASE_CLASSES = ["KeyboardInterrupt", "SystemExit", "GeneratorExit", "CustomBase"]
@@ -35,7 +35,38 @@ RUNFILE = {"op": "cell", "act": "runfile", "text": "", "names": [["ok", "b64deco
 PRUN = {"op": "cell", "act": "prun", "text": "%prun -q zz_p = b64decode('aGk='); del b64decode", "names": [["ok", "b64decode"]], "del": True}
 # stdin is at EOF: ipdb prints its prompt and quits before the statement runs; the auto-import has happened by then
 DEBUGSTMT = {"op": "cell", "act": "debugstmt", "text": "%debug zz_d = b64decode('aGk=')", "names": [["ok", "b64decode"]], "del": False}
-HEALTHY = [RUN_IMPORT, RUN_PLAIN, RUN_BAD, RUN_UNKNOWN, RUN_TWO, INSPECT, INSPECT_UNKNOWN, CGLOBAL, CGLOBAL_USER, CATTR, RUNFILE, PRUN, DEBUGSTMT]
+# a module in the current directory (needs '' on sys.path)
+RUN_CWD = {"op": "cell", "act": "run", "text": "import sys\nsys.modules.pop('zzcwd_mod', None)\nimport zzcwd_mod\nzz_c = zzcwd_mod.val\nzz_c",
+           "names": [], "del": False}
+# completing an attribute of a module whose import raises
+CATTR_BAD = {"op": "cell", "act": "cattr", "text": "zzmod_bad.ba", "names": [["bad", "zzmod_bad"]], "del": False}
+
+
+def stmt(text, names=(), dele=False):
+    return {"op": "cell", "act": "run", "text": text, "names": [list(n) for n in names], "del": dele}
+
+
+# statement kinds whose analysis touches the user's AST in special ways; each cell is self-contained
+STMT_CELLS = [
+    stmt("zz_a = 1\nzz_a += 2\nzz_a"),                                                        # augmented assignment: name
+    stmt("class ZzC: pass\nzz_o = ZzC()\nzz_o.v = 1\nzz_o.v += 4\nzz_o.v"),                     # ... attribute
+    stmt("zz_l = [1, 2]\nzz_l[0] += 5\nzz_l[0] *= 2\nzz_l"),                                   # ... subscript
+    stmt("zz_h = 1\nzz_h += len(b64decode('aGk='))\ndel b64decode\nzz_h", [("ok", "b64decode")], True),
+    stmt("zz_n: int = 3\nzz_m: 'str'\nzz_n"),                                                 # annotated assignment
+    stmt("zz_w = [zz_y := 10, zz_y + 1]\nzz_w"),                                              # walrus
+    stmt("zz_t = 0\nfor zz_i, (zz_j, zz_k) in enumerate([(1, 2), (3, 4)]):\n    zz_t += zz_i * zz_j + zz_k\nzz_t"),
+    stmt("import io\nwith io.StringIO('x') as zz_f, io.StringIO('y') as zz_g:\n    zz_r = zz_f.read() + zz_g.read()\nzz_r"),
+    stmt("try:\n    1 / 0\nexcept ZeroDivisionError as zz_e:\n    zz_m = type(zz_e).__name__\nzz_m"),
+    stmt("def zz_dec(f):\n    return f\n@zz_dec\ndef zz_fn(a, b=2, *c, d=4, **e):\n    return a + b + d\nzz_fn(1)"),
+    stmt("class ZzK(object):\n    a = 1\n    b = a + 1\n    def m(self):\n        return ZzK.b\nZzK().m()"),
+    stmt("zz_v = 7\nzz_s = f'{zz_v!r:>4}|{zz_v + 1}'\nzz_s"),                                   # f-string
+    stmt("zz_gl = 0\ndef zz_g():\n    global zz_gl\n    zz_gl = 5\n    zz_gl += 1\nzz_g()\nzz_gl"),   # global
+    stmt("zz_d = {k: v for k, v in [(1, 2)]}\nzz_q = [x for x in range(3) if x]\nzz_d[1] += zz_q[0]\nzz_d"),
+    stmt("zz_x = zz_z = 2\nzz_x, *zz_rest = [1, 2, 3]\nzz_x += zz_z\ndel zz_z\nzz_x, zz_rest"),
+    stmt("lambda zz_p, zz_b=1: zz_p + zz_b\nzz_u = (lambda q: q * 2)(4)\nzz_u -= 1\nzz_u"),
+]
+
+HEALTHY = [RUN_CWD, CATTR_BAD] + STMT_CELLS + [RUN_IMPORT, RUN_PLAIN, RUN_BAD, RUN_UNKNOWN, RUN_TWO, INSPECT, INSPECT_UNKNOWN, CGLOBAL, CGLOBAL_USER, CATTR, RUNFILE, PRUN, DEBUGSTMT]
 TARGETS = [RUN_IMPORT, RUN_TWO, RUN_PLAIN, INSPECT, CGLOBAL, CATTR, RUNFILE, PRUN, DEBUGSTMT]
 RUNFILE_TEXT = "zz_r = b64decode('aGk=')\ndel b64decode\n"
 
@@ -118,6 +149,47 @@ def gen_natural():
     return cases
 
 
+def gen_stmt():
+    """statement kinds (augmented assignment to names / attributes / subscripts, annotated assignment, walrus, for /
+    with / except targets, decorators, class bodies, f-strings, global, comprehensions, starred targets, lambdas)
+    under a stub on symbol_needs_import armed from its k-th call on (k = 1..4): the fault lands in the middle of
+    the analysis of the user's AST (reported to the model as SAnalysis) or in auto_import_symbol (SNeedsImport);
+    what the cell then does must be what a pyflyby-free shell does"""
+    cases = []
+    n = 0
+    for ci, cell in enumerate(STMT_CELLS):
+        for k in ((ci % 2) + 1, (ci % 2) + 3):
+            cls = (EXC_CLASSES + AWKWARD)[n % (len(EXC_CLASSES) + len(AWKWARD))]
+            n += 1
+            cases.append(mk("stmt", [{"op": "LoadExt"}, with_faults(cell, [["SNeedsImport", cls, k]]), cell, RUN_IMPORT]))
+    return cases
+
+
+def gen_stmt_full():
+    cases = []
+    n = 0
+    for cell in STMT_CELLS:
+        for k in range(1, 9):
+            for cls in (EXC_CLASSES[n % len(EXC_CLASSES)], "SyntaxError"):
+                cases.append(mk("stmt", [{"op": "LoadExt"}, with_faults(cell, [["SNeedsImport", cls, k]]), cell, RUN_IMPORT]))
+            n += 1
+    return cases
+
+
+def gen_finder():
+    """natural fault sources of completion: a sys.path entry whose finder cannot enumerate its modules
+    (ModuleHandle.list() raises OSError inside _safe_call), then a cell importing from the current directory;
+    a module whose import raises while its attributes are completed"""
+    cases = []
+    for level in ("INFO", "DEBUG"):
+        cases.append(mk("finder", [{"op": "LoadExt"}, RUN_CWD, CGLOBAL, RUN_CWD, RUN_IMPORT, {"op": "ReloadExt"}, CGLOBAL_USER, RUN_CWD],
+                        level, bad_finder=True))
+    cases.append(mk("finder", [{"op": "LoadExt"}, CATTR, CGLOBAL, CATTR, RUN_CWD, INSPECT], bad_finder=True))
+    for bad in ("ValueError", "ImportError", "CustomError", "KeyboardInterrupt"):
+        cases.append(mk("finder", [{"op": "LoadExt"}, CATTR_BAD, RUN_CWD, CGLOBAL_USER, RUN_BAD], bad_exc=bad))
+    return cases
+
+
 def gen_matrix(levels=("INFO",)):
     """every hook x fault site x {an Exception subclass (rotating), SyntaxError, a BaseException (rotating)}"""
     cases = []
@@ -157,7 +229,11 @@ def gen_random(ctx, n):
             ops.append(cell)
         bad = r.choice(["ValueError", "ImportError", "ZeroDivisionError", "CustomError", "KeyboardInterrupt", "SystemExit", "CustomBase"]
                        if r.random() < .5 else ["ValueError"])
-        cases.append(mk("random", ops, level, jedi=r.random() < .1, bad_exc=bad, i=i))
+        for o in ops:
+            if o.get("faults") and r.random() < .3 and len(o.get("names", [])) <= 1:
+                o["faults"] = [f for f in o["faults"] if f[0] != "SNeedsImport"] + \
+                              [["SNeedsImport", r.choice(EXC_CLASSES + ["SyntaxError"]), r.randint(1, 6)]]
+        cases.append(mk("random", ops, level, jedi=r.random() < .1, bad_exc=bad, i=i, bad_finder=r.random() < .15))
     return cases
 
 
@@ -172,7 +248,8 @@ def absorbed_expected(case, o):
     """the property promises absorption for Exception subclasses at the quantified sites, outside debug mode"""
     if case.get("level") == "DEBUG" and o.get("act") != "run":
         return False      # raise_on_error="if_debug" re-raises by design; the AST transformer passes raise_on_error=False
-    for s, e in o.get("faults", []):
+    for f in o.get("faults", []):
+        s, e = f[0], f[1]
         if s not in QUANTIFIED or e in BASE_CLASSES:
             return False
     if case.get("bad_exc") in BASE_CLASSES and any(k == "bad" for k, _ in o.get("names", [])):
@@ -198,7 +275,7 @@ def oracle(case, impl, ref):
         in_domain = in_domain and dom
         if not in_domain:
             continue
-        natural = bool(c.get("natural_parse"))
+        natural = bool(c.get("natural_parse")) or (s["errored"] and not tr[k - 1]["snap"]["errored"])
         hit = sum(c.get("hits", {}).values()) > 0 or natural
         # (1) no pyflyby exception reaches the shell
         if "escaped" in c:
@@ -214,6 +291,11 @@ def oracle(case, impl, ref):
                     bad.append(("result_is_original", "step %d (%s, faults %r): %s is %r, a pyflyby-free shell gives %r"
                                 % (k, o["act"], o.get("faults"), f, c.get(f), rc.get(f))))
                     break
+        # (2b) ... and leaves the process-global state (sys.path, sys.meta_path, cwd, environment, builtins, logging
+        #      handlers) as the pyflyby-free shell's interaction leaves it
+        if rc is not None and c.get("globals_delta") != rc.get("globals_delta"):
+            bad.append(("result_is_original", "step %d (%s, faults %r): process-global state changed: %r, in a pyflyby-free "
+                        "shell: %r" % (k, o["act"], o.get("faults"), c.get("globals_delta"), rc.get("globals_delta"))))
         # (3) after an internal error the importer has withdrawn; later interactions run no pyflyby code
         before = tr[k - 1]["snap"]
         if before["st"] == "DISABLED" and before["errored"] and c["pf_calls"] > 0:
@@ -277,7 +359,8 @@ def evaluate(ctx, cases, results):
         ctx.count(c, hits > 0)
         ctx.bump("faulted_cells=%d" % nf)
         for o in c["ops"]:
-            for s, e in o.get("faults", []):
+            for f in o.get("faults", []):
+                s, e = f[0], f[1]
                 ctx.bump("site:" + s)
                 ctx.bump("class:" + ("SyntaxError" if e == "SyntaxError" else "Base" if e in BASE_CLASSES else "Exception"))
                 ctx.bump("hook:" + o["act"])
@@ -301,7 +384,8 @@ ANCHORS = c14.ANCHORS + [
     "pyflyby._interactive:complete_symbol", "pyflyby._interactive:get_global_namespaces",
     "pyflyby._interactive:InterceptPrintsDuringPromptCtx", "pyflyby._log:_PyflybyHandler.HookCtx",
     "pyflyby._log:_PyflybyHandler.emit", "pyflyby._autoimp:auto_import", "pyflyby._autoimp:auto_import_symbol",
-    "pyflyby._autoimp:_try_import", "pyflyby._autoimp:find_missing_imports"]
+    "pyflyby._autoimp:_try_import", "pyflyby._autoimp:find_missing_imports", "pyflyby._autoimp:symbol_needs_import",
+    "pyflyby._modules:ModuleHandle.list", "pyflyby._util:ExcludeImplicitCwdFromPathCtx"]
 
 
 def run(ctx):
@@ -310,7 +394,12 @@ def run(ctx):
                             "fault sites; two-episode sessions with %reload_ext in between at both levels; exceptions whose str()/"
                             "repr() raises, with unprintable arguments, required-argument __init__, OSError with errno, "
                             "UnicodeDecodeError x 4 hooks; %run of scripts that make pyflyby's own read/parse fail (latin-1 with "
-                            "coding cookie, BOM, invalid UTF-8, syntax error); then the fault matrix: every hook (run-cell one and two names, plain cell, inspect, complete global, complete "
+                            "coding cookie, BOM, invalid UTF-8, syntax error); 16 statement kinds (augmented assignment to name/attribute/"
+                            "subscript, annotated assignment, walrus, for/with/except targets, decorators, class bodies, f-strings, "
+                            "global, comprehensions, starred targets, lambdas) under a stub on symbol_needs_import armed from its k-th "
+                            "call on; a sys.path entry whose finder cannot enumerate its modules, then a cell importing from the current "
+                            "directory; completing attributes of a module whose import raises; process-global state (sys.path, "
+                            "sys.meta_path, cwd, environ, builtins, logging handlers) compared after every interaction; then the fault matrix: every hook (run-cell one and two names, plain cell, inspect, complete global, complete "
                             "attribute, %run, %prun) x every fault site (7 stubs) x {an Exception subclass (rotating over 13), "
                             "SyntaxError, a BaseException (rotating over 4)}, each followed by three healthy interactions; "
                             "+ random sessions of 2-6 interactions with 0-2 armed stubs each, failing known imports of several "
@@ -321,8 +410,8 @@ def run(ctx):
         "the import database and the modules (one importable, one raising at import) are written by the harness",
     ]
     ctx.notes["trusted_base"] = ["IPython 9.17.1 as the environment of the hooks (modelled, not verified)"]
-    always = gen_core() + gen_episodes() + gen_awkward() + gen_natural()
-    matrix = gen_matrix() if ctx.quick else gen_matrix(("INFO", "DEBUG"))
+    always = gen_core() + gen_episodes() + gen_awkward() + gen_natural() + gen_stmt() + gen_finder()
+    matrix = gen_matrix() if ctx.quick else gen_matrix(("INFO", "DEBUG")) + gen_stmt_full()
     if ctx.quick:
         r = cm.rng(ctx.seed, "c13-matrix")
         matrix = r.sample(matrix, min(len(matrix), 30 * ctx.scale))
